@@ -166,6 +166,7 @@ impl Link {
 //@@ end
 
 //@@ fn file=fe2o3-amqp/src/link/mod.rs impl=`~impl<R,T,F,M>Link<R,T,F,M>where` name=as_maybe_incomplete_attach id=Link::as_maybe_incomplete_attach
+//@@ shape loops=while
 //@@ qmark
 //@@ ret Result<AttachS, SendAttachErrorKind>
 //@@ subst `BytesMut::new()` => `BytesMutS::new()` rule=R11
